@@ -194,6 +194,17 @@ func genC18(r *rng, thorough bool, emit func(FlowScenario)) {
 			scr := t.leafScript(0, 0, true, 1, 2, true, post)
 			emit(singleRun(cfg, scr))
 			emit(asFlowStep(cfg, scr, t))
+			// … and when the result comes from a later attempt or from the fallback
+			for _, bud := range []int{1, 2} {
+				c2 := k
+				c2.Budget = bud
+				for _, m := range []uint{0, 2} {
+					t.next, t.errN = r.intn(30), r.intn(20)
+					s2 := t.leafScript(0, 0, true, m, bud+1, true, post)
+					emit(singleRun(c2, s2))
+					emit(asFlowStep(c2, s2, t))
+				}
+			}
 		}
 	}
 	// batch nodes: sizes 0..3 x concurrency 0..2 x post action, directly and as a routed step
